@@ -31,12 +31,12 @@ Theorem c10_identity_never_crossed : forall cred sched s0 s t r its it,
 Proof. exact identity_never_crossed. Qed.
 Print Assumptions c10_identity_never_crossed.
 
-(* non-vacuity, and what the lock is for: with @_synchronize removed a two-client schedule hands bob (202) the
-   key of alice (101): his Get is evaluated under her identity *)
+(* non-vacuity, and what the lock is for: with @_synchronize removed a two-client schedule hands bob (credential 2020) the
+   key of alice (user 101, credential 1010): his Get is evaluated under her identity *)
 Theorem c10_unlocked_refuted :
   exists s, run cred2 false wit_sched (init wit_store wit_queues) = Some s /\
             crossed cred2 s = true /\
-            In (1%nat, mkReq 10 [QGet (Some 1)], [mkItem OP_get 0 1 0 (Some 101) None]) (log s).
+            In (1%nat, mkReq 10 [QGet (Some 1)], [mkItem OP_get 0 1 0 (Some 1010) None]) (log s).
 Proof. exact unlocked_refuted. Qed.
 Print Assumptions c10_unlocked_refuted.
 
@@ -51,8 +51,8 @@ Definition ok_sched : list nat :=
 Example ex_locked_run :
   exists s, run cred2 true ok_sched (init wit_store wit_queues) = Some s /\
             (forall t, queue (thr s t) = [] /\ running (thr s t) = None) /\
-            log s = [(1%nat, mkReq 10 [QGet (Some 1)], [mkItem OP_get 2 0 0 (Some 202) None]);
-                     (0%nat, mkReq 12 [QGet (Some 1)], [mkItem OP_get 0 1 0 (Some 101) None])].
+            log s = [(1%nat, mkReq 10 [QGet (Some 1)], [mkItem OP_get 2 0 0 (Some 2020) None]);
+                     (0%nat, mkReq 12 [QGet (Some 1)], [mkItem OP_get 0 1 0 (Some 1010) None])].
 Proof.
   eexists. split; [vm_compute; reflexivity|]. split.
   - intros [|[|t]]; vm_compute; auto.
